@@ -94,9 +94,25 @@ type Registry struct {
 	// repository use the "*" action.
 	WildSalt uint64
 
+	// Redirect, when set, makes the registry answer some requests with a
+	// redirect to the same path on another modelled host.
+	Redirect *Redirect
+
 	epoch           int
 	challengedBasic bool
 	advertised      map[string]bool // realm hosts advertised so far
+}
+
+// Redirect describes how a registry redirects.
+type Redirect struct {
+	To   string // target host (another registry model: mirror or blob store)
+	Code int    // 301, 302, 307 or 308
+	What string // "all" or "blobs"
+	When string // "pre": whoever asks is redirected; "post": only authenticated requests are
+}
+
+func (rd *Redirect) applies(req *http.Request) bool {
+	return rd != nil && (rd.What == "all" || strings.Contains(req.URL.Path, "/blobs/"))
 }
 
 // ---------------------------------------------------------------------------
@@ -109,6 +125,7 @@ type ReqState struct {
 	Hinted []string // raw scope hints that apply to Host (per-host hints + global hints)
 	Body   []byte   // expected request body (nil = none)
 
+	Redirected     bool     // some hop of this request went to another registry host (redirect followed by net/http)
 	Sends          int      // sends addressed to Host's registry API
 	Fetches        int      // token-endpoint arrivals under this correlation id
 	FetchHosts     []string // where those went
@@ -163,6 +180,9 @@ type World struct {
 	// after it was scanned; an error is returned from RoundTrip as a transport
 	// error. It is used to hold token endpoints.
 	Before func(req *http.Request, info ReqInfo) error
+	// After, when set, is called (without locks) with the response about to be
+	// returned; it may only delay.
+	After func(req *http.Request, info ReqInfo, resp *http.Response)
 
 	mu       sync.Mutex
 	regs     map[string]*Registry
@@ -387,6 +407,10 @@ func (w *World) RoundTrip(req *http.Request) (*http.Response, error) {
 		kind = "token"
 	}
 	ev := Event{Seq: seq, Corr: corr, Kind: kind, Method: req.Method, URL: req.URL.String()}
+	if st := w.reqs[corr]; st != nil && kind == "registry" && host != st.Host {
+		st.Redirected = true
+		w.count("redirect_hops_to_other_host", 1)
+	}
 	if st := w.reqs[corr]; st != nil && kind == "token" {
 		// "one token fetch": arrivals are counted, served or not
 		st.Fetches++
@@ -435,6 +459,9 @@ func (w *World) RoundTrip(req *http.Request) (*http.Response, error) {
 		resp = w.respond(req, 404, nil, `{"errors":[{"code":"NOT_FOUND"}]}`)
 	}
 	w.mu.Unlock()
+	if w.After != nil {
+		w.After(req, ReqInfo{Kind: kind, Host: host, Corr: corr}, resp)
+	}
 	return finish(resp, nil)
 }
 
@@ -696,7 +723,9 @@ func (w *World) serveRegistryLocked(r *Registry, req *http.Request, body []byte,
 			if owner == "" {
 				owner = it.Registry
 			}
-			if st != nil && st.Host == r.Host && owner == r.Host && w.Flavour != "single" {
+			// (a redirected request received challenges of two hosts: which one the
+			// client merged is its business, the scope set is not judged then)
+			if st != nil && st.Host == r.Host && owner == r.Host && w.Flavour != "single" && !st.Redirected {
 				raws := append([]string{}, st.Hinted...)
 				if st.HasChallenge {
 					raws = append(raws, st.ChallengeScope)
@@ -720,6 +749,29 @@ func (w *World) serveRegistryLocked(r *Registry, req *http.Request, body []byte,
 		}
 	}
 
+	redirect := func() *http.Response {
+		u := *req.URL
+		u.Host = r.Redirect.To
+		w.count("redirects_answered", 1)
+		resp := w.respond(req, r.Redirect.Code, http.Header{"Location": {u.String()}}, "")
+		if st != nil && st.Host == r.Host {
+			st.LastRespID, st.LastStatus = resp.Header.Get("X-Verif-Resp"), r.Redirect.Code
+		}
+		return resp
+	}
+	if r.Redirect.applies(req) && r.Redirect.When == "pre" {
+		return redirect()
+	}
+
+	// A challenge reaches the client as the answer to the request it addressed
+	// to st.Host, also when net/http followed a redirect to this host: for the
+	// statement's "registry that challenged" / "realm that registry advertised"
+	// it counts for the addressed registry as well.
+	addressed := r
+	if st != nil && st.Host != r.Host && w.regs[st.Host] != nil {
+		addressed = w.regs[st.Host]
+	}
+
 	authed := false
 	switch r.Scheme {
 	case SchemeOpen:
@@ -741,6 +793,7 @@ func (w *World) serveRegistryLocked(r *Registry, req *http.Request, body []byte,
 		case SchemeBasic:
 			h.Set("Www-Authenticate", []string{`Basic realm="Registry Realm"`, `basic realm="r"`, `BASIC realm="x", charset="UTF-8"`}[rng.IntN(3)])
 			r.challengedBasic = true
+			addressed.challengedBasic = true
 			w.held[r.Host] = true // from now on the client may hold this registry's Basic token
 			if st != nil {
 				st.HasChallenge = false
@@ -751,8 +804,9 @@ func (w *World) serveRegistryLocked(r *Registry, req *http.Request, body []byte,
 			h.Set("Www-Authenticate", hdr)
 			if u, err := url.Parse(r.Realm); err == nil {
 				r.advertised[u.Host] = true
+				addressed.advertised[u.Host] = true
 			}
-			if st != nil && st.Host == r.Host {
+			if st != nil {
 				st.HasChallenge = true
 				st.ChallengeScope = scope
 				st.challengeRaws = append(st.challengeRaws, scope)
@@ -768,6 +822,9 @@ func (w *World) serveRegistryLocked(r *Registry, req *http.Request, body []byte,
 	}
 	if authz != "" {
 		w.held[r.Host] = true
+	}
+	if r.Redirect.applies(req) {
+		return redirect()
 	}
 	status := 200
 	if req.Method == http.MethodPost || req.Method == http.MethodPut || req.Method == http.MethodPatch {
